@@ -114,6 +114,8 @@ type KnownFile struct {
 	Fixed    []string       `json:"fixed"`
 }
 
+var knownObl = map[string]bool{}
+
 func hasTag(tags []string, want map[string]bool) bool {
 	for _, t := range tags {
 		if want[t] || t == "ALL" {
@@ -281,6 +283,19 @@ func main() {
 			to = 60
 		}
 	}
+	var kf KnownFile
+	if *known != "" {
+		if data, err := os.ReadFile(*known); err == nil {
+			json.Unmarshal(data, &kf)
+		}
+	}
+	// an obligation recorded as an open finding is expected to stay undischarged: it gets a short solver budget
+	// in the quick tier (it is still attempted, and reported as KNOWN-FINDING only while it fails)
+	if *tier != "thorough" {
+		for _, k := range kf.Findings {
+			knownObl[k.Obligation] = true
+		}
+	}
 	tSolve := time.Now()
 	results := solveAll(sel, work, *jobs, to, *tier == "thorough")
 	solveWall := time.Since(tSolve).Seconds()
@@ -288,12 +303,6 @@ func main() {
 	byName := map[string][]*SolveResult{}
 	for _, r := range results {
 		byName[r.Obl.Name] = append(byName[r.Obl.Name], r)
-	}
-	var kf KnownFile
-	if *known != "" {
-		if data, err := os.ReadFile(*known); err == nil {
-			json.Unmarshal(data, &kf)
-		}
 	}
 	if len(propList) == 0 {
 		propList = []string{"ALL"}
